@@ -141,6 +141,18 @@ def run_c06(rep):
     rep.coverage["evaluations"] = rep.coverage.get("evaluations", 0) + 1
 
 
+def run_c13(rep):
+    import fam_include
+    n, mf = sizes(rep, (240, 6), (4000, 10))
+    fam_include.include_family(rep, n, mf)
+
+
+def run_c14(rep):
+    import fam_diag
+    n = sizes(rep, 40, 400)
+    fam_diag.diag_family(rep, n, known_classes=known_classes("C14"))
+
+
 # ------------------------------------------------------------------------------------------------ registry
 
 PROPS = {
@@ -271,6 +283,34 @@ PROPS = {
                    "reserved _type key, registered classes, plain objects without underscore attributes) at any nesting "
                    "depth, decode(encode(v)) is v with tuples as lists, by mutual structural induction on the value tree",
     ),
+    "C13": dict(
+        theorems=["Bardic.Include." + t for t in ["resolve_provenance", "resolveLines_prov", "resolve_len", "resolve_cycle",
+                                                   "resolve_missing", "display_origin"]] + [T + "entryPoints_resolve_includes"],
+        run=run_c13,
+        rule="include graphs of 1-6 (thorough: 10) files in nested directories with relative paths (../, ./), trees, diamonds, "
+             "cycles, self-includes, missing leaves, leading blank lines, files with and without a final newline, @include "
+             "without / with several paths; materialised in a temp directory (removed afterwards); resolve_includes compared "
+             "with the Lean resolver; parse_file, compile_file, bundle and `bardic play` compared with compiling the "
+             "independently substituted text; distinct by hash of the file set",
+        level_text="proof: resolve_provenance — for every file system, include graph and depth, each combined line is "
+                   "literally the attributed line of the attributed file and no @include line survives; one map entry per "
+                   "line (resolve_len); a path on the current branch is rejected (resolve_cycle), a missing file reported "
+                   "(resolve_missing); extracted-table theorem: every .bard entry point compiles through a resolving function",
+    ),
+    "C14": dict(
+        theorems=["Bardic.Include.display_origin", "Bardic.Include.resolve_provenance", T + "errorSites_unshifted"],
+        run=run_c14,
+        rule="~30 kinds of single malformed construct (hooks, render, input, bad ~ statement incl. multi-line, unbalanced "
+             "braces, @if/@elif/@else/@for/@py headers in both syntaxes, @endif:/@endfor:, malformed choices, passage names "
+             "and parameter lists, unclosed blocks) placed at a random top-level position of each of 40 (thorough 400) "
+             "valid stories, in the main file, inside an included file, or after included content; file and line parsed "
+             "from the diagnostic; distinct by hash of (files, kind)",
+        level_text="proof: display_origin (composition of the resolver's provenance theorem with the header of format_error: a "
+                   "site that passes the 0-based combined index of the offending line names exactly the file and 1-based "
+                   "line the author wrote, in every include graph) + errorSites_unshifted, a kernel-checked theorem over the "
+                   "table of all 42 format_error call sites and 8 forwarding calls re-extracted from the source on every run "
+                   "(each passes the index unshifted); that the index is the right line is decided by the placement oracle",
+    ),
 }
 
 
@@ -319,6 +359,16 @@ def witness_fails(wj):
         c["cycles"] = False
         fs = getattr(oracles, wj["oracle"])(c)
         return any(f["cls"] == wj.get("cls") for f in fs)
+    if fam == "diag":
+        import fam_diag, tempfile, shutil, os
+        d = tempfile.mkdtemp(prefix="verif_w_")
+        try:
+            main = os.path.join(d, "main.bard")
+            open(main, "w").write(wj["source"])
+            kind, rf, rl, msg = fam_diag.compile_and_locate(main)
+        finally:
+            shutil.rmtree(d, ignore_errors=True)
+        return kind in ("SyntaxError", "ValueError") and rl is None
     if fam == "saveload":
         import fam_saveload, random
         c = corr_play.run_fixed(wj["source"], wj["ops"])
